@@ -52,6 +52,10 @@ ScalarText(c) ==
     [] c = "nlnl" -> <<97, 10, 10>>
     [] c = "long" -> <<97, 97, 97, 32, 98, 98, 98, 32, 99, 99>>
     [] c = "docsep" -> <<45, 45, 45>>
+    [] c = "dashkey" -> <<45, 45, 45, 32, 97>>                                       \* `--- a`: a marker word, then text
+    [] c = "dotkey" -> <<46, 46, 46, 32, 97>>                                        \* `... a`
+    [] c = "dotsfold" -> <<97, 97, 97, 97, 97, 97, 32, 46, 46, 46, 32, 98>>          \* `aaaaaa ... b`: marker word at a fold point (width 5)
+    [] c = "dashfold" -> <<97, 97, 97, 97, 97, 97, 32, 45, 45, 45>>                  \* `aaaaaa ---`
     [] c = "x" -> <<120>>
 AnchorText(a) == IF a = "a1" THEN <<97, 49>> ELSE IF a = "a2" THEN <<97, 50>> ELSE <<>>
 \* the tag as the application sees it (any injective encoding serves H)
